@@ -368,7 +368,31 @@ def rule_b(chk, prog):
                 pos = any(isinstance(tst, ast.Compare) and norm(tst.left) == norm(tgt) and isinstance(tst.ops[0], ast.Gt)
                           and norm(tst.comparators[0]) in ("0", "0.0") and l is True for tst, l in deps)
                 if dec and pos:
-                    chk.ok("C03.b", where, text, "decrease of existing ponding (only when ponding > 0)")
+                    # ... and by no more than what is ponded: guarded by `ponding > x` (or >=) for the very amount x that is taken
+                    x = norm(v.right).strip("()")
+                    def same_amount(c):
+                        o = norm(c).strip("()")
+                        if o == x:
+                            return True
+                        # x is a local assigned from the compared expression on the guarded path (EsAct = EsPot; s = s - EsAct)
+                        if isinstance(v.right, ast.Name):
+                            for d in flow.defs_reaching(v.right.id, nid):
+                                da = cfg.nodes[d].ast if d != ENTRY else None
+                                if isinstance(da, ast.Assign) and norm(da.value).strip("()") == o:
+                                    return True
+                        if isinstance(c, ast.Name):
+                            for d in flow.defs_reaching(c.id, nid):
+                                da = cfg.nodes[d].ast if d != ENTRY else None
+                                if isinstance(da, ast.Assign) and norm(da.value).strip("()") == x:
+                                    return True
+                        return False
+                    covered = any(isinstance(tst, ast.Compare) and norm(tst.left) == norm(tgt) and isinstance(tst.ops[0], (ast.Gt, ast.GtE)) and l is True
+                                  and same_amount(tst.comparators[0]) for tst, l in deps)
+                    if covered:
+                        chk.ok("C03.b", where, text, "decrease of existing ponding, only when the ponding exceeds the amount taken")
+                    else:
+                        chk.violation("C03.b", where, text, f"the ponding is reduced by `{x}` without a guard `ponding > {x}` for that very amount: ponded water can "
+                                      "become negative", loc=fi.loc(node))
                 else:
                     chk.violation("C03.b", where, text,
                                   "the ponding depth is given a value that is neither 0, nor conditional on bunds, nor a decrease of "
